@@ -114,6 +114,24 @@ def check(ctx):
     bad = ctx.judge("TimersTrace", [t1, t2])
     for b in bad: b["driver"] = "drv_timers"
     ctx.report(bad)
+    # the manager instantiated with another TimeSpec: 64-bit clock, 32-bit intervals (timer_spec<int64_t, int32_t>); intervals stay below
+    # 2^31 (scale up to 20), the time bases sit just below multiples of 2^31 so that deadlines straddle them
+    drv32 = ctx.cxx("drv_timers32", ["drv_timers.cpp"] + SRCS, flags=["-DTM_SPEC32"])
+    def remap(lines):
+        out = []
+        for ln in lines:
+            w = ln.split()
+            if w[0] == "R" and w[1] == "tm":
+                sc = ctx.rng.choice([0, 0, 3, 10, 20]); m = ctx.rng.choice([1, 2, 3, 4, 5]); j = ctx.rng.choice([3, 100, 2000, 40000])
+                ln = "R tm %s %d %d" % (w[2], sc, m * 2 ** 31 - j * 2 ** sc)
+            out.append(ln)
+        return out
+    keep = [l for l in remap(script[: len(script) // 2] + rnd[: len(rnd) // 2]) if l[0] != "S" or l.startswith("SetCb")]
+    keep = [l for i, l in enumerate(keep)]
+    t3 = ctx.drive(drv32, [l for l in keep if not (l.startswith("R st"))], "timers_spec32")
+    bad = ctx.judge("TimersTrace", [t3], label="TimersSpec32")
+    for b in bad: b["driver"] = "drv_timers32"
+    ctx.report(bad)
     ctx.assumptions += [
         "intervals >= 1 and non-decreasing exec times, as the statement conditions",
         "a timer that is planned when its callback returns is re-armed at (its start at that moment) + interval - the statement's literal rule; for a callback that re-plans its own timer this is one interval after the deadline the callback set (what the code does)",
@@ -125,7 +143,7 @@ def check(ctx):
 
 def replay(ctx, path):
     d = json.load(open(path))
-    drv = ctx.cxx("drv_timers", ["drv_timers.cpp"] + SRCS)
+    drv = ctx.cxx("drv_timers32", ["drv_timers.cpp"] + SRCS, flags=["-DTM_SPEC32"]) if d.get("driver") == "drv_timers32" else ctx.cxx("drv_timers", ["drv_timers.cpp"] + SRCS)
     lines = []
     for e in d["execution"]:
         n = e["e"]
